@@ -280,6 +280,16 @@ def _units(e, env, problems):
             return u if u in ('unknown', None) else u * 2
         if name in ('all', 'any'):
             return _units(recv, env, problems)
+        if name in ('stack', 'cat', 'concat') and e.args and isinstance(e.args[0], (ast.List, ast.Tuple)):
+            us = [_units(x, env, problems) for x in e.args[0].elts]
+            if 'unknown' in us:
+                return 'unknown'
+            known = [u for u in us if u is not None]
+            if known and any(u != known[0] for u in known):
+                problems.append((e, 'stacks components of different units %s in `%s`' % (sorted({str(u) for u in known}), src(e)[:60])))
+            return known[0] if known else None
+        if name in ('unsqueeze', 'squeeze', 'expand', 'expand_as', 'view', 'reshape', 'contiguous', 'to', 'type_as'):
+            return _units(recv, env, problems)
         if name == '$upd':
             a = _units(e.args[0], env, problems)
             b = _units(e.args[2], env, problems)
@@ -712,6 +722,8 @@ def rule_sing(repo, tier):
 
         def upper_mask(e, depth=0):
             """e is a boolean mask that holds only where the input is BELOW a bound: its complement bounds the input away from zero"""
+            if isinstance(e, ast.UnaryOp) and isinstance(e.op, (ast.Invert, ast.Not)) and depth < 6:
+                return lower_mask(e.operand, depth + 1)
             if isinstance(e, ast.Name) and depth < 4:
                 return any(upper_mask(v, depth + 1) for v in assigns.get(e.id, [])) and len(assigns.get(e.id, [])) == 1
             if isinstance(e, ast.Compare) and len(e.ops) == 1:
@@ -725,8 +737,8 @@ def rule_sing(repo, tier):
             return False
 
         def lower_mask(e, depth=0):
-            if isinstance(e, ast.UnaryOp) and isinstance(e.op, ast.Invert):
-                return upper_mask(e.operand)
+            if isinstance(e, ast.UnaryOp) and isinstance(e.op, (ast.Invert, ast.Not)) and depth < 6:
+                return upper_mask(e.operand, depth + 1)
             if isinstance(e, ast.Name) and depth < 4:
                 vs = assigns.get(e.id, [])
                 return len(vs) == 1 and lower_mask(vs[0], depth + 1)
@@ -800,10 +812,219 @@ def rule_sing(repo, tier):
     return res
 
 
+def _effective_compare(mask_expr):
+    """(Compare node, effective operator) of a mask expression that is one comparison under any number of ~ / not and shape-only wrappers"""
+    e, neg = mask_expr, False
+    while True:
+        if isinstance(e, ast.UnaryOp) and isinstance(e.op, (ast.Invert, ast.Not)):
+            e, neg = e.operand, not neg
+        elif isinstance(e, ast.Call) and isinstance(e.func, ast.Attribute) and e.func.attr in ('bool', 'unsqueeze', 'squeeze', 'clone', 'detach') and not (dotted(e.func) or '').startswith('torch.'):
+            e = e.func.value
+        elif isinstance(e, ast.Call) and dotted(e.func) == 'torch.logical_not' and e.args:
+            e, neg = e.args[0], not neg
+        else:
+            break
+    if not (isinstance(e, ast.Compare) and len(e.ops) == 1):
+        return None
+    op = {ast.Lt: '<', ast.LtE: '<=', ast.Gt: '>', ast.GtE: '>='}.get(type(e.ops[0]))
+    if op is None:
+        return None
+    if neg:
+        op = {'<': '>=', '<=': '>', '>': '<=', '>=': '<'}[op]
+    return e, op
+
+
+def _init_attrs(init):
+    """self.attr -> expression over the constructor's parameters (straight-line assignments of __init__)"""
+    out = {}
+    for st in init.node.body:
+        if isinstance(st, ast.Assign):
+            for t in st.targets:
+                pairs = list(zip(t.elts, st.value.elts)) if isinstance(t, ast.Tuple) and isinstance(st.value, ast.Tuple) and len(t.elts) == len(st.value.elts) else [(t, st.value)]
+                for tt, vv in pairs:
+                    d = dotted(tt)
+                    if d and d.startswith('self.') and d.count('.') == 1:
+                        out[d] = subst(vv, out)
+    return out
+
+
+@guarded
+def rule_form(repo, tier):
+    """Each kernel "maps non-negative input elementwise to its documented closed form, ... zero at zero ... (Huber with continuous value and slope
+    at its threshold)".  The closed form is written twice in the source: as LaTeX in the class docstring and as the expression forward() returns.
+    Both are parsed (sa.texmath for the LaTeX) and interpreted in the truncated-series domain over s = sqrt(x) (so that sqrt(x) is a power series) with the
+    hyper-parameters as free inner variables; the expansions must agree to every order explored.  From the code alone: the s^0 coefficient is zero
+    (rho(0) = 0), and at the Huber threshold, x = delta^2 (1 + t)^2, the two branches agree at orders t^0 and t^1 (value and slope)."""
+    from ..texmath import parse_definition, math_blocks, TexError
+    from .. import series, masks
+    from ..limits import Evaluator
+    from ..series import Unsupported, Inconclusive
+    res = RuleResult('C09.FORM', 'every kernel\'s forward() is its documented closed form (LaTeX of the class docstring vs returned expression, compared as series in '
+                     'sqrt(x) with the hyper-parameters free), vanishes at x = 0, and Huber\'s two branches join with equal value and slope at the threshold', floor=7)
+    mod = repo.module(KER)
+    decided = 0
+    for cname, ci in mod.classes.items():
+        fwd, init = ci.methods.get('forward'), ci.methods.get('__init__')
+        if fwd is None or init is None:
+            continue
+        doc = ast.get_docstring(ci.node, clean=True) or ''
+        attrs = _init_attrs(init)
+        hyper = [p_ for p_ in init.pos_params if p_ != 'self']
+        xin = [p_ for p_ in fwd.pos_params if p_ != 'self'][0]
+        # code branches: (mask formula | None, mask expr | None, value)
+        groups, guards, inl = masks.analyse_function(fwd.node)
+        rets = returns_of(fwd.node)
+        branches = []
+        if len(rets) == 1:
+            v = inline_straight(fwd.node, upto=rets[0]).value(rets[0].value)
+            sg = [g for g in groups if g.kind == 'store']
+            if sg and isinstance(v, ast.Call) and dotted(v.func) == '$upd':
+                for m in sg[0].members:
+                    branches.append((m[0], m[2], m[1]))
+            else:
+                branches.append((None, None, v))
+        if not branches:
+            raise AnalysisError('C09.FORM: cannot read the value returned by %s.forward' % cname)
+        try:
+            cases = None
+            for b in math_blocks(doc):
+                try:
+                    cases = parse_definition(b)
+                    break
+                except TexError:
+                    continue
+            if cases is None:
+                raise TexError('no parsable definition in the docstring')
+        except TexError as ex:
+            res.inst({'kernel': ci.fq, 'decided': False, 'reason': 'docstring formula: %s' % ex}, ci.fq)
+            continue
+
+        def evaluator(order):
+            ring, gens, rings = series.tower(order)
+            x = ring.mul(gens['s'], gens['s']) if 's' in gens else None
+            vm = {}
+            for h in hyper:
+                if h in gens:
+                    vm[dump(ast.Name(h, ast.Load()))] = gens[h]
+            return ring, gens, vm
+
+        def ev_code(e, ring, vm, xval):
+            e2 = subst(e, dict(attrs))
+            vm2 = dict(vm)
+            vm2[dump(ast.Name(xin, ast.Load()))] = xval
+            return Evaluator(ring, vm2, ('atom', ('none',))).ev(e2)
+
+        def ev_doc(e, ring, vm, xval):
+            vm2 = dict(vm)
+            vm2[dump(ast.Name('x', ast.Load()))] = xval
+            return Evaluator(ring, vm2, ('atom', ('none',))).ev(e)
+
+        order = ['s'] + hyper
+        ring, gens, vm = evaluator(order)
+        xs = ring.mul(gens['s'], gens['s'])
+        # pair code branches with documented cases
+        pairs = []
+        if len(cases) == 1 and len(branches) == 1:
+            pairs.append((branches[0], cases[0]))
+        elif len(cases) == len(branches) == 2:
+            cif = [c for c in cases if c[0] is not None]
+            cel = [c for c in cases if c[0] is None]
+            eff = [_effective_compare(b[1]) for b in branches]
+            if len(cif) == len(cel) == 1 and all(e is not None for e in eff) and eff[0][1][0] != eff[1][1][0]:
+                same = [i for i in (0, 1) if eff[i][1][0] == cif[0][0][1][0]]
+                if len(same) == 1:
+                    pairs = [(branches[same[0]], cif[0]), (branches[1 - same[0]], cel[0])]
+        if not pairs:
+            res.inst({'kernel': ci.fq, 'decided': False, 'reason': 'branches of the code (%d) and cases of the docstring (%d) cannot be paired' % (len(branches), len(cases))}, ci.fq)
+            res.add(Finding('C09.FORM', fwd, '%s.forward has %d branch(es), its documented closed form %d case(s)' % (cname, len(branches), len(cases)),
+                            construct='branch count'))
+            continue
+        for (bf, bmask, bval), (ccond, cval) in pairs:
+            inst = {'kernel': ci.fq, 'code': src(bval)[:60], 'documented': src(cval)[:60]}
+            try:
+                C = ev_code(bval, ring, vm, xs)
+                D = ev_doc(cval, ring, vm, xs)
+                diff = series.compare(ring, C, D, ['free'] * len(order))
+                cond_diff = None
+                if ccond is not None and bmask is not None:
+                    ec = _effective_compare(bmask)
+                    if ec is not None:
+                        # the two inequalities are the same condition iff both sides cross at the same threshold in the same direction: on the curve
+                        # x = thr (1 + t)^2 through the DOCUMENTED threshold both `lhs - rhs` vanish at t = 0 and grow with the same sign
+                        cmp_node, opn = ec
+                        thr_ring, thr_gens, _ = series.tower(['t'] + hyper)
+                        tvm = {dump(ast.Name(h, ast.Load())): thr_gens[h] for h in hyper}
+                        one_ = thr_ring.one()
+                        # documented threshold: solve  lhs(x) = rhs  for the Huber form sqrt(x) = delta / x = delta^2 by trying x = rhs^2 and x = rhs
+                        cands = []
+                        for xcand in (ast.BinOp(ccond[2], ast.Pow(), ast.Constant(2)), ccond[2]):
+                            try:
+                                xt_ = thr_ring.mul(Evaluator(thr_ring, tvm, ('atom', ('none',))).ev(xcand), thr_ring.mul(thr_ring.add(one_, thr_gens['t']), thr_ring.add(one_, thr_gens['t'])))
+                                dl = thr_ring.sub(ev_doc(ccond[0], thr_ring, tvm, xt_), ev_doc(ccond[2], thr_ring, tvm, xt_))
+                            except (Unsupported, Inconclusive):
+                                continue
+                            if dl.c and all(e_ > 0 or thr_ring.base.maybe_zero(v_) for e_, v_ in dl.c.items()):
+                                cands.append((xt_, dl))
+                        if not cands:
+                            raise Unsupported('threshold of the documented condition not recognised')
+                        xt_, dl = cands[0]
+                        try:
+                            cl = thr_ring.sub(ev_code(cmp_node.left, thr_ring, tvm, xt_), ev_code(cmp_node.comparators[0], thr_ring, tvm, xt_))
+                        except Unsupported:
+                            # e.g. sqrt(delta (1 + t)^2): the code's threshold is not a rational function of the documented one - a different threshold
+                            cl = thr_ring.one()
+                        def lead_sign(z):
+                            e0 = min(z.c)
+                            v_ = z.c[e0]
+                            while not isinstance(v_, Fraction):
+                                v_ = v_.c[min(v_.c)]
+                            return e0, (v_ > 0) - (v_ < 0)
+                        vanishes = all(e_ > 0 or thr_ring.base.maybe_zero(v_) for e_, v_ in cl.c.items()) and cl.c
+                        if not vanishes or lead_sign(cl)[1] != lead_sign(dl)[1] or opn[0] != ccond[1][0]:
+                            cond_diff = 'the branch condition `%s` is not the documented `%s %s %s` (different threshold or direction)' % (src(cmp_node)[:40], src(ccond[0]), ccond[1], src(ccond[2]))
+                inst.update({'decided': True, 'agree': diff is None and cond_diff is None})
+                res.inst(inst, (ci.fq, src(bval)[:80]))
+                decided += 1
+                for dmsg in ([('value', diff)] if diff else []) + ([('condition', cond_diff)] if cond_diff else []):
+                    res.add(Finding('C09.FORM', fwd, '%s.forward returns `%s`, its docstring defines `%s`: as functions of s = sqrt(x) and the hyper-parameters they differ - %s'
+                                    % (cname, src(bval)[:60], src(cval)[:60], dmsg[1].replace('s^', 'sqrt(x)^')), node=rets[0],
+                                    construct='closed form|%s|%s' % (cname, dmsg[0])))
+                # zero at zero: the branch that contains x = 0 (the unconditional one, or the `if` branch of sqrt(x) < delta)
+                if bf is None or bf[0] == 'atom':
+                    zero_ok = all(e > 0 or ring.base.maybe_zero(v) for e, v in C.c.items()) and C.prec > 0
+                    res.inst({'kernel': ci.fq, 'clause': 'rho(0) = 0', 'ok': zero_ok}, (ci.fq, 'zero'))
+                    if not zero_ok:
+                        res.add(Finding('C09.FORM', fwd, '%s.forward does not vanish at x = 0: constant term %s' % (cname, ring.base.show(C.c.get(0)) if 0 in C.c else '?'),
+                                        node=rets[0], construct='zero at zero|' + cname))
+            except (Unsupported, Inconclusive) as ex:
+                inst.update({'decided': False, 'reason': '%s: %s' % (type(ex).__name__, ex)})
+                res.inst(inst, (ci.fq, src(bval)[:80]))
+        # Huber join: value and slope continuous at the threshold sqrt(x) = delta
+        if len(branches) == 2 and hyper == ['delta']:
+            try:
+                ring2, gens2, rings2 = series.tower(['t', 'delta'])
+                one = ring2.one()
+                xt = ring2.mul(ring2.mul(gens2['delta'], gens2['delta']), ring2.mul(ring2.add(one, gens2['t']), ring2.add(one, gens2['t'])))
+                vm2 = {dump(ast.Name('delta', ast.Load())): gens2['delta']}
+                vals = [ev_code(b[2], ring2, vm2, xt) for b in branches]
+                jd = series.compare(ring2, vals[0], vals[1], [('limit', 1), 'free'])
+                res.inst({'kernel': ci.fq, 'clause': 'value and slope continuous at the threshold x = delta^2', 'ok': jd is None}, (ci.fq, 'join'))
+                decided += 1
+                if jd is not None:
+                    res.add(Finding('C09.FORM', fwd, '%s.forward: the two branches do not join at the threshold x = delta^2 with equal value and slope (x = delta^2 (1+t)^2): %s'
+                                    % (cname, jd), node=rets[0], construct='threshold join|' + cname))
+            except (Unsupported, Inconclusive) as ex:
+                res.inst({'kernel': ci.fq, 'clause': 'threshold join', 'decided': False, 'reason': str(ex)}, (ci.fq, 'join'))
+    res.notes.append('%d comparisons decided' % decided)
+    if decided < 6 and not res.findings:
+        raise AnalysisError('C09.FORM: only %d closed-form comparisons could be decided (expected >= 6)' % decided)
+    return res
+
+
 def _rules_core(repo, tier):
     return [rule_guard(repo, tier), rule_kind(repo, tier)] + rule_masks(repo, 'C09.MP', 'C09.GD', [(KER, 'Huber.forward')], floor=1) + \
         [rule_unit(repo, tier), rule_sel_axis(repo, tier), rule_contr(repo, tier), rule_sing(repo, tier), rule_grad2(repo, tier), rule_div(repo, tier),
-         rule_pure9(repo, tier), rule_xdef(repo, tier), rule_defcorr(repo, tier)]
+         rule_pure9(repo, tier), rule_xdef(repo, tier), rule_defcorr(repo, tier), rule_form(repo, tier)]
 
 
 def rules(repo, tier):
